@@ -240,7 +240,7 @@ def rule_dataset(ctx: Ctx) -> None:
         ctx.require(len(lps) == 1, "_load_dataset: sample loop not found")
         lp = lps[0]
         it = S(lp.text)
-        NUSC = "NuScenes(version='annotation',dataroot=dataset_path,verbose=False)"
+        NUSC = "NuScenes(dataroot=dataset_path,verbose=False,version='annotation')"
         ctx.check(it in (f"enumerate(tqdm(_get_sample_tokens({NUSC}.sample)))", f"enumerate(_get_sample_tokens({NUSC}.sample))", "enumerate(tqdm(_get_sample_tokens(nusc.sample)))"), "C16-one-frame-per-sample", "_load_dataset", f"iterates:{len(p.conds)}",
                   f"frames are built from `{it}`; expected every sample token of nusc.sample in table order", fi=fi, expected="enumerate(tqdm(_get_sample_tokens(nusc.sample)))", found=it)
         nv, tok = [U(x) for x in lp.node.target.elts]
